@@ -41,12 +41,12 @@ def run(ctx):
                 "nodes: one two-output node and multi-edges), terminal nodes with and without outputs, names from a pool "
                 "sharing characters/prefixes (and all-equal names for dedup; second outputs called 'b', 'payload', 'name'), crossed with copy / rename{prefix,const} / "
                 "fuse{new,inplace,linear,never callbacks} / dedup{payloads from {1,2}} / split{all key maps} / "
-                f"expand{{outer x sub-graph x input map x output map x names}}; constants {cs}; non-trivial = the graph has "
+                f"expand{{outer x sub-graph x input map x output map x names incl. dotted names of the expanded node, after join_namespaced, and two-level expansion}}; constants {cs}; non-trivial = the graph has "
                 "an edge; TLC evaluates GraphSem!Post on every (case, dump of the real result objects)",
         "clauses": ["sink_terms_differ", "input_is_not_an_output_of_a_result_node", "result_has_a_cycle",
                     "name_is_not_func_of_old_name", "duplicates_left", "not_idempotent", "node_not_in_exactly_one_part",
                     "node_in_part_of_other_key", "cut_edges_are_not_the_cross_part_edges",
-                    "rejoined_parts_differ_from_original", "sinks_differ", "consumer_not_wired_to_selected_leaf",
+                    "rejoined_parts_differ_from_original", "sinks_differ", "consumer_not_wired_to_selected_leaf", "spliced_node_is_not_named_parent_dot_name", "second_level:<clause>",
                     "expanded_sink_has_no_counterpart", "sink_of_result_denotes_nothing_of_the_input", "raised"],
     })
     for c in cases[:: max(1, len(cases) // 5)][:5]:
